@@ -172,12 +172,16 @@ def grid_history(c, kind):
     n1 = g.par_dim
     p = c.vec('p', n1)
     c.eq('roundtrip_before', g.fun2par(g.par2fun(p)), p)
+    _ = (g.par_shape, g.fun_shape, g.funvec_shape)               # the shapes have been asked for before the grid is replaced
     newN = len(g.grid) + 3
-    g.grid = np.linspace(0, 1, newN)
+    if kind.startswith('Mapped'): g.geometry.grid = np.linspace(0, 1, newN)
+    else: g.grid = np.linspace(0, 1, newN)
     n2 = g.par_dim
     q = c.vec('q', n2)
     f = g.par2fun(q)
     c.holds('fun_shape_follows_the_new_grid', tuple(np.shape(f)) == (newN,), note=str(np.shape(f)))
+    c.holds('reported_shapes_follow_the_new_grid', tuple(g.fun_shape) == tuple(np.shape(f)) and tuple(g.funvec_shape) == tuple(np.shape(g.fun2vec(f))) and tuple(g.par_shape) == (n2,),
+            note=f"reported fun {g.fun_shape}, funvec {g.funvec_shape}, par {g.par_shape}; produced fun {np.shape(f)}, funvec {np.shape(g.fun2vec(f))}")
     c.eq('roundtrip_after_grid_change', g.fun2par(f), q)
     if kind.startswith('Step'):
         # every node of the NEW grid receives exactly one parameter's contribution, as a freshly constructed geometry would give
@@ -271,6 +275,7 @@ def jobs(tier):
         for k in (0, 2):
             J.append(Job(f'{kind}:projection_idempotent:batch={k}', lambda c, kind=kind, k=k: projection_idempotent(c, kind, k), 'Pbox', fn['Step'], maxpaths=4096))
     J.append(Job('Continuous1D:grid_history', lambda c: grid_history(c, 'Continuous1D'), 'Pbox', fn['Continuous1D']))
+    J.append(Job('Mapped:grid_history', lambda c: grid_history(c, 'Mapped'), 'Pbox', fn['Mapped']))
     for kind in ('Step:mean:5:2', 'Step:max:6:3', 'Step:min:4:4'):
         J.append(Job(f'{kind}:grid_history', lambda c, kind=kind: grid_history(c, kind), 'Pbox', fn['Step'], maxpaths=4096))
     for kind in ('KL:6:3', 'KL:8:4'):
